@@ -419,6 +419,10 @@ def reenter_history(rng: random.Random):
     return ops
 
 
+def has_reenter(ops) -> bool:
+    return any(o[0] == "G" and len(o) > 3 and o[3] and any(f[1] == "reenter" for f in o[3]["fns"]) for o in ops)
+
+
 def plain_fns(fns):
     """the same host functions without side activity: a `reenter` function is the constant it returns"""
     if not fns:
@@ -684,12 +688,14 @@ class C05(Prop):
         technique='Lean 4: heap model of NameContainer/Referent/Activation objects with explicit aliasing and the API state machine '
                   'mkEnv/compile/program/evaluate; invariant over ALL operation histories (induction on the history; frame + renaming '
                   'argument on the heap) => every evaluate equals the same evaluate in a fresh world; the clone/parser/exec-namespace '
-                  'policies are re-read from the source on every run (bridge); correspondence: generated histories run in one pristine '
+                  'policies and the recursion-limit policy of Environment.__init__ are re-read from the source on every run (bridge); '
+                  'correspondence: generated histories run in one pristine '
                   'process, every evaluate also alone in its own pristine process, and the same history through the Lean step function',
         text='proof: for every finite history of API operations and every program in the resulting state, evaluate(p, b) observes exactly '
              'what it observes in a fresh world built from p\'s declarations, package and expression (Cel.Props.C05.history_independent), '
-             'pre-existing heap objects are never written (frame), re-evaluation is stable; stated for the clone/parser/namespace policies '
-             'that the translator reads from Referent.clone, CELParser.__init__ and Transpiler.evaluate',
+             'pre-existing heap objects are never written (frame), re-evaluation is stable, the process-wide recursion limit at every '
+             'evaluation is the one of the fresh world (limit_history_independent); stated for the clone/parser/namespace/limit policies '
+             'that the translator reads from Referent.clone, CELParser.__init__, Transpiler.evaluate and Environment.__init__',
         note='Lean kernel; standard axioms; source extractors for the three policies; the evaluator of the model covers the name-resolution '
              'fragment (identifiers, dotted names, packages, member access, +) — other expressions are covered by the process-level oracle only; '
              'fork from a pristine post-import process stands for "fresh interpreter" (cross-checked against real spawns)',
@@ -699,16 +705,23 @@ class C05(Prop):
     gen_names = ["Runtime"]
     trusted = ["a process forked from a pristine `import celpy` state behaves like a fresh interpreter (cross-checked by real spawns each run)",
                "canonical rendering of results (NameContainer rendered recursively; CELEvalError by cause class and message head)",
-               "expression evaluation outside the model's name-resolution fragment (macros, operators, functions): oracle only"]
+               "expression evaluation outside the model's name-resolution fragment (macros, operators, functions): oracle only",
+               "the recursion limit is the only interpreter-wide setting the library touches (grep of sys.setrecursionlimit over the package); "
+               "how deep an expression a given limit admits is measured by the oracle (depth ladders), not modelled"]
     rule = ("random API histories (6-40 ops; 1-4 environments of both runner classes; dotted/packaged declarations incl. rare invalid names; "
             "shared annotation dicts; parser resets; ASTs reused across programs/environments; programs re-evaluated with different, "
-            "overlapping, empty and repeated bindings) each run in one pristine process; every evaluate and every program construction "
-            "also alone in its own pristine process; non-trivial = distinct history in which some program is evaluated at least twice "
-            "with different bindings or which mixes runner classes")
+            "overlapping, empty and repeated bindings), resource-boundary histories (one expression shape nested to a geometric ladder of "
+            "depths 8..~210 on environments of both runner classes created before/after each other) and re-entrant histories (a host "
+            "function that builds/evaluates another program, or re-evaluates its own, in the middle of an evaluation; same thread or "
+            "another thread) each run in one pristine process; every evaluate and every program construction also alone in its own "
+            "pristine process (host functions replaced by plain constants); the recursion limit after every operation vs. the model's "
+            "limitTrace; non-trivial = distinct history in which some program is evaluated at least twice with different bindings or "
+            "which mixes runner classes")
     uses_driver = True
 
     def __init__(self):
         self._hist: Dict[str, Any] = {}     # case_key -> [[model, rich], ...]
+        self._lim: Dict[str, Any] = {}      # case_key -> [recursion limit before the history, after op 0, after op 1, ...]
         self._alone: Dict[str, Any] = {}    # json(alone ops) -> [model, rich] of the last op
         self._alone_jobs: Dict[str, Any] = {}   # json(alone ops) -> ops, for the jobs that were really run (not answered as a prefix)
         self._tier = "quick"
@@ -717,10 +730,13 @@ class C05(Prop):
     def generate(self, rng, tier):
         self._tier = tier
         cases = gen_cases(rng, 2, 4) if tier == "quick" else gen_cases(rng, 40, 8)
-        budget = 240 if tier == "quick" else 1500
+        budget = 600 if tier == "quick" else 1500    # only a safety net (a timeout is a tool failure, exit 2)
         from ..core import corpus_cases
         self.prefetch(corpus_cases(self.pid) + cases, budget)
-        return cases
+        # the recursion limit after every operation of the same histories vs. the model's `limitTrace` (no further process runs)
+        lim_cases = [{"kind": "limit", "ops": c["ops"]} for c in corpus_cases(self.pid) + cases
+                     if c.get("kind") == "hist" and not has_reenter(c["ops"])]
+        return cases + list({case_key(c): c for c in lim_cases}.values())
 
     def search_cases(self, rng):
         # the core collects up to 2000 cases before it looks at its deadline: keep our own
@@ -739,6 +755,7 @@ class C05(Prop):
         for c in todo:
             d = res[case_key(c)]
             self._hist[case_key(c)] = d.get("obs") or [["HARNESS-CRASH " + d.get("crash", ""), "HARNESS-CRASH"]]
+            self._lim[case_key(c)] = d.get("lim")
         need: Dict[str, Any] = {}
         for c in cases:
             for aops in self.alone_jobs_of(c):
@@ -784,12 +801,32 @@ class C05(Prop):
 
     # ---- the three roles --------------------------------------------------------------------------
     def impl(self, c):
+        if c.get("kind") == "limit":
+            hc = {"kind": "hist", "ops": c["ops"]}
+            k = case_key(hc)
+            if k not in self._hist:
+                self.prefetch([hc], 300)
+            lim = self._lim.get(k)
+            return "|".join(str(x) for x in lim[1:]) if lim else "no-limits"
         k = case_key(c)
         if k not in self._hist:
             self.prefetch([c], 300)
         return "|".join(o[0] for o in self._hist[k])
 
+    def limit_letters(self):
+        from ..translate import gen_c05_c16
+        try:
+            pol = gen_c05_c16.limit_policy()
+        except Exception:
+            pol = ("always", 2500)
+        return "n" if pol[0] == "never" else (f"a{pol[1]}" if pol[0] == "always" else f"{pol[1]}{pol[2]}")
+
     def model_line(self, c):
+        if c.get("kind") == "limit":
+            lim = self._lim.get(case_key({"kind": "hist", "ops": c["ops"]}))
+            if not lim:
+                return None
+            return " ".join(["LIM", self.limit_letters(), str(lim[0])] + [(op[1] if op[0] == "E" else "o") for op in c["ops"]])
         toks = model_tokens(c["ops"])
         if toks is None:
             return None
@@ -813,6 +850,8 @@ class C05(Prop):
         return m
 
     def oracle(self, c, out):
+        if c.get("kind") == "limit":
+            return None         # interpreter state, not an outcome: the correspondence with `limitTrace` is what is checked
         k = case_key(c)
         obs = self._hist.get(k)
         if obs is None:
@@ -859,6 +898,8 @@ class C05(Prop):
 
     def nontrivial(self, c, out):
         ops = c["ops"]
+        if c.get("kind") == "limit":
+            return len({o[1] for o in ops if o[0] == "E"}) > 1
         kinds = {o[1] for o in ops if o[0] == "E"}
         seen: Dict[int, set] = {}
         for o in ops:
